@@ -92,7 +92,7 @@ def run(ck):
             if not loc:
                 # rejected before any validator
                 if p.passed('length', False): exp = '-EEAV_EMAIL_EMPTY'
-                elif at and (p.passed(at[3], False) or p.passed(f'(({at[3]} + 1) == (email + length))', True)): exp = '-EEAV_DOMAIN_EMPTY'
+                elif at and (p.passed(at[3], False) or p.passed(f'({at[3]} == NULL)', True) or p.passed(f'({at[3]} != NULL)', False) or shared.passed_equation(p, f'({at[3]} + 1)', '(email + length)', True)): exp = '-EEAV_DOMAIN_EMPTY'
                 else: exp = '-EEAV_LPART_TOO_LONG'
                 if rc != exp: why3.append(f'early rejection leaves rc = {rc}, want {exp}')
                 if dom: why3.append('domain validated without a local-part check')
@@ -106,7 +106,7 @@ def run(ck):
             i = p.events.index(c)
             if not p.passed('length', True, before=i): why3.append('no length != 0 test before the local-part check')
             if not p.passed(A, True, before=i): why3.append('no NULL test of the @ pointer')
-            if not p.passed(f'(({A} + 1) == (email + length))', False, before=i): why3.append('no "@ is last" test (ch + 1 == end with end = email + length)')
+            if not shared.passed_equation(p, f'({A} + 1)', '(email + length)', False, before=i): why3.append('no "@ is last" test (ch + 1 == end with end = email + length)')
             lim = [e for e in p.events[:i] if e[0] == 'cond' and re.fullmatch(r'\(\(' + re.escape(A) + r' - email\) (>|>=|<|<=) (-?\d+)\)', e[1])]
             if len(lim) != 1: why3.append(f'{len(lim)} local-part length test(s) before the scanner')
             else:
